@@ -7,7 +7,9 @@ tie     : burst runs (200 monitored nodes added in one call, then every node upd
           nodes added, removed and re-added while the writers run; after quiescence the values are read back.  The
           observable consequences of the model (Model/MonitorObs.v: right node, per-node order, silence after removal,
           convergence) are evaluated inside Coq on each recorded run.
-known   : the last run uses a consumer that stalls (ChanSubscribe, channel of 1): the pump drops notifications and the last
+          One more run writes A -> B -> A value histories (A delivered, then B and A again back to back on the server
+          side, round after round, fast consumer, then silence): right node and convergence are checked inside Coq.
+known   : the last generated run uses a consumer that stalls (ChanSubscribe, channel of 1): the pump drops notifications and the last
           delivered value stays stale = the replay of C28_refuted_consumer_drop (known finding consumer-drop).
 """
 import json, os
@@ -25,12 +27,22 @@ def coq_obs(o):
         return sum(1 for d in o["deliveries"][:k] if d["node"] >= 0)
     # +1: the pump may be between its handle lookup and the callback for one message when RemoveNodeIDs returns
     rem = "; ".join("(%d%%nat, %d%%nat)" % (n, at(k) + 1) for n, k in o["removed_at"])
-    first = set()
-    readd = []
+    # per node the events alternate add, remove, add, ...: the j-th removal of a node is bounded by its (j+1)-th addition.
+    # Both are stamped with the number of deliveries seen, and a re-add that follows its removal with no delivery in
+    # between carries the same stamp: with the +1 above it would look as if it came BEFORE the removal, so the silent
+    # interval would run on to the next re-add.  Never place a re-add before the removal it follows.
+    adds, rems = {}, {}
     for n, k in o["added_at"]:
-        if n in first:
-            readd.append("(%d%%nat, %d%%nat)" % (n, at(k)))
-        first.add(n)
+        adds.setdefault(n, []).append(k)
+    for n, k in o["removed_at"]:
+        rems.setdefault(n, []).append(k)
+    readd = []
+    for n, ks in adds.items():
+        for j, k in enumerate(ks[1:]):
+            pos = at(k)
+            if j < len(rems.get(n, [])):
+                pos = max(pos, at(rems[n][j]) + 1)
+            readd.append("(%d%%nat, %d%%nat)" % (n, pos))
     return ("{| ob_writes := [%s]; ob_deliv := [%s]; ob_monitored := [%s]; ob_removed := [%s]; ob_readded := [%s]; ob_final := [%s] |}"
             % (writes, deliv, "; ".join("%d%%nat" % n for n in o["monitored"]), rem, "; ".join(readd),
                "; ".join(str(v) for v in o["final"])))
@@ -98,15 +110,19 @@ def run(ctx):
         for k in ("removed_at", "added_at", "monitored", "deliveries", "final"):
             if o.get(k) is None:
                 o[k] = []
-    if rc != 0 or len(obs) != runs or any(o.get("err") for o in obs):
+    if rc != 0 or len(obs) != runs + 1 or any(o.get("err") for o in obs):
         ctx.finding("harness-crash", "C28 harness failed: " + "; ".join(str(o.get("err")) for o in obs if o.get("err"))[:300],
                     {"output": out[-3000:], "seed": seed, "runs": runs})
         ctx.conclude(proof_ok, False, 1, detail)
         return
 
     new, corr_ok = 0, True
-    nodrop = [o for o in obs if o["dropped"] == 0]
-    dropped = [o for o in obs if o["dropped"] > 0]
+    # the write-back run (values return to an earlier value: A -> B -> A) is checked for the right node and for
+    # convergence only; its values are not unique, so the per-node order predicate does not apply to it
+    wback = [o for o in obs if o["mode"] == "writeback"]
+    obs_u = [o for o in obs if o["mode"] != "writeback"]
+    nodrop = [o for o in obs_u if o["dropped"] == 0]
+    dropped = [o for o in obs_u if o["dropped"] > 0]
     if os.path.exists(os.path.join(vf.COQ, "Model/MonitorObs.vo")):
         # runs without drops: everything must hold; runs with drops: everything but convergence
         okc, idx, clog = ctx.eval_cases(IMPORTS, "mobs", [coq_obs(o) for o in nodrop],
@@ -116,9 +132,36 @@ def run(ctx):
                                          "  right_node c && monotone c && final_is_last_write c",
                                          shard=2, name="Dropped")
         oks, sidx, slog = ctx.eval_cases(IMPORTS, "mobs", [coq_obs(o) for o in dropped], "  obs_converged c", shard=2, name="Stale")
-        if not (okc and okd and oks):
+        okw, widx, wlog = ctx.eval_cases(IMPORTS, "mobs", [coq_obs(o) for o in wback],
+                                         "  right_node c && final_is_last_write c && obs_converged c", shard=2, name="WriteBack")
+        if not (okc and okd and oks and okw):
             corr_ok = False
-            detail["cases"] = (clog + dlog + slog)[-2000:]
+            detail["cases"] = (clog + dlog + slog + wlog)[-2000:]
+        for i in widx:
+            o = wback[i]
+            last = {}
+            for d in o["deliveries"]:
+                if d["node"] >= 0:
+                    last[d["node"]] = d["value"]
+            stale = [(n, last.get(n), o["final"][n]) for n in o["monitored"] if last.get(n) != o["final"][n]]
+            wrong = [d for d in o["deliveries"] if d["node"] == -1 or (d["node"] >= 0 and d["value"] not in [0] + o["writes"][d["node"]])]
+            if o["dropped"] > 0:
+                key, what = "writeback-dropped", "the fast consumer of the write-back run had %d notifications dropped" % o["dropped"]
+            elif stale:
+                key = "stale-after-write-back"
+                what = ("values were written A -> B -> A back to back on the server and writing stopped; no notification was dropped by the consumer, "
+                        "yet the last value delivered differs from the value the server holds for (node, last delivered, Read) %s" % stale[:6])
+            elif wrong:
+                key, what = "wrong-node", "delivery names a node with a value it never held: %s" % wrong[:3]
+            else:
+                key, what = "final-read", "Read after quiescence is not the last acknowledged write: final %s" % o["final"]
+            small = dict(o, deliveries=o["deliveries"][-80:], writes=[w[-12:] for w in o["writes"]])
+            if ctx.finding(key, "run %d (writeback): %s" % (o["run"], what),
+                           {"seed": seed, "runs": runs, "run": o["run"], "observation_tail": small,
+                            "how": "sysharness -seed S -n RUNS c28 (last run, mode writeback): 8 monitored nodes, callback consumer, each round writes B then A again (every third node B, C, A) back to back on the server side with NodeNameSpace.SetAttribute, then waits for silence; at the end the last delivered value per node is compared with a Read"}):
+                new += 1
+        if any(o["dropped"] > 0 for o in wback) and not widx:
+            ctx.notes.append("write-back run: the consumer dropped notifications although it is a plain callback")
         bad_runs = [nodrop[i] for i in idx] + [dropped[i] for i in didx]
         for o in bad_runs:
             why = py_checks(o) or [("coq-only", "Coq predicates reject the run; python agrees on nothing specific")]
@@ -143,11 +186,12 @@ def run(ctx):
     ctx.coverage.update({
         "evaluations": ndel,
         "distinct_nontrivial": len({(o["run"], d["node"], d["value"]) for o in obs for d in o["deliveries"]}),
-        "rule": "DataChangeMessages recorded in %d runs (4 nodes, 3 concurrent writers, %d writes per node, monitor adds 2 nodes, removes one, re-adds it); distinct = distinct (run, node, value); every run is checked inside Coq against Model/MonitorObs.v" % (runs, wpn),
+        "rule": "DataChangeMessages recorded in %d runs + one write-back run (8 nodes, a delivered value A, then per round B and A again written back to back on the server side, fast consumer, then silence) (4 nodes, 3 concurrent writers, %d writes per node, monitor adds 2 nodes, removes one, re-adds it); distinct = distinct (run, node, value); every run is checked inside Coq against Model/MonitorObs.v" % (runs, wpn),
         "samples": [{"run": o["run"], "mode": o["mode"], "writes": [len(w) for w in o["writes"]], "deliveries": len(o["deliveries"]),
                      "dropped": o["dropped"], "errors": o["errors"], "final": o["final"]} for o in obs[:4]],
         "runs": runs, "runs_without_drop": len(nodrop), "runs_with_drop": len(dropped),
         "writes": sum(len(w) for o in obs for w in o["writes"]),
-        "traces_validated_against_impl": runs,
+        "traces_validated_against_impl": runs + len(wback),
+        "writeback_runs": len(wback), "writeback_write_backs": sum(max(0, len(w) - 1) for o in wback for w in o["writes"]),
     })
     ctx.conclude(proof_ok, corr_ok, new, detail)
